@@ -21,7 +21,10 @@ RULE = ("seeded random class families (4-8 classes: roots, single/multiple inher
         "nested parameter that rely on the class of its default; class paths in canonical, long (pkg.sub.Name) or re-exported "
         "form) each run together with its explicit twin, "
         "class changes between argv items (top level and nested, a quarter of them with dict_kwargs on both sides), "
-        "argument defaults, parse_object channel; plus 132 hand-made cases in every run (dotted null two levels down, "
+        "argument defaults (15 % of them invalid: an ill-typed or unknown init_arg, found while the defaults are completed), "
+        "8 % of the specs repeat a declared parameter in dict_kwargs (well- or ill-typed), parse_object channel; one case per "
+        "family is a fault history in one process (a parser with an invalid option default fails first, then a fresh parser "
+        "sees a class change); plus 150 hand-made cases in every run (dotted null two levels down, "
         "functions with related/unrelated return type, same-named parameter of another type across a class change, "
         "dict_kwargs naming a parameter, abstract declared type, two-level nested construction, prefix-named options / "
         "parameters with merged config sources, a family that grows between two parses, Dict[str, C] / List[C] options in "
@@ -417,8 +420,34 @@ def gen_tree(rng, fam, base, depth=0, clean=False):
             key = rng.choice(["zz", "yy"] + ([rng.choice(PNAMES)] if rng.random() < 0.3 else []))
             if key not in [k for k, _ in dk]:
                 dk.append([key, gen_leaf(rng, ["int"] if rng.random() < 0.7 else ["str"], True)])
+    if rng.random() < 0.08:
+        # a declared parameter given in init_args AND in dict_kwargs of the same spec (the dict_kwargs copy is moved into
+        # init_args and validated; it wins): well-typed or ill-typed for the parameter
+        plain = [(k, v) for k, v in ia if "i" in v or "s" in v]
+        if plain:
+            k, v = rng.choice(plain)
+            if k not in [x for x, _ in dk]:
+                bad = rng.random() < 0.5
+                new = ({"s": rng.choice(STRS)} if bad else {"i": rng.randint(-5, 30)}) if "i" in v else (
+                    {"i": rng.randint(0, 9)} if bad else {"s": rng.choice(STRS)})
+                dk.append([k, new])
     nm = import_name(fam, cp)
     return {"cp": cp, "ia": ia, "dk": dk, "bare": nm if nm is not None and cls_of(fam, nm) else None}
+
+
+def corrupt_tree(rng, t):
+    """a copy of a valid config tree with one fault that is only found when the value is adapted: an int init_arg given
+    as a string, else an unknown init_args key (never an import problem: add_argument itself would raise on that)"""
+    import copy
+
+    t = copy.deepcopy(t)
+    ints = [kv for kv in t["ia"] if "i" in kv[1]]
+    if ints and rng.random() < 0.7:
+        rng.choice(ints)[1] = {"s": rng.choice(STRS)}
+    else:
+        t["ia"].append(["zz", {"i": 1}])
+    t.pop("implicit", None)
+    return t
 
 
 def short_name(rng, cp, p_short, bare=None):
@@ -650,6 +679,20 @@ def _gen_history_case(rng, fam, tag):
     return c
 
 
+def _gen_fault_case(rng, fam, tag):
+    """A fault history in one process: a parser whose class-typed option has an INVALID default is used first (parse_args
+    raises ArgumentError while the defaults are completed, the program carries on), then - on a fresh parser - a class is
+    named and replaced by another class. The module gets a name of its own so that the history is part of the case."""
+    full = rebase_family(fam, "%sf%s" % (fam["mod"], tag))
+    names = [k["name"] for k in full["classes"]]
+    with_subs = [b for b in names if sum(1 for k in full["classes"] if is_sub(full, k["name"], b) and not k["abstract"]) >= 2]
+    base = rng.choice(with_subs or names)
+    c = _gen_case(rng, full, base, kind="change")
+    c["warm"] = {"fam": full, "base": base, "dflt": tree_value(corrupt_tree(rng, gen_tree(rng, full, base, clean=True))),
+                 "steps": []}
+    return c
+
+
 OPT_NAMES = [["x", "x_ema"], ["x", "x2"], ["x_ema", "x"], ["x", "y"], ["x", "x_ema", "y"], ["xa", "x", "xab"]]
 
 
@@ -854,7 +897,7 @@ def gen_cases_for_family(rng, fam, ncases):
     for j in range(ncases):
         special = None
         if j >= ncases - 6:
-            special = ("multi", "history", "cont")[j % 3]
+            special = ("multi", "history", "cont", "multi", "fault", "cont")[j - (ncases - 6)]
         for attempt in range(8):
             if special == "multi":
                 c = _gen_multi_case(rng, fam)
@@ -869,8 +912,8 @@ def gen_cases_for_family(rng, fam, ncases):
                 if not _int_meets_str(fam, flat, None) and not _dk_hazard(fam, flat, None):
                     break
                 continue
-            if special == "history":
-                c = _gen_history_case(rng, fam, j)
+            if special in ("history", "fault"):
+                c = _gen_history_case(rng, fam, j) if special == "history" else _gen_fault_case(rng, fam, j)
                 if not _int_meets_str(fam, c["steps"] + c["warm"]["steps"], c["dflt"]) and not _dk_hazard(fam, c["steps"], c["dflt"]):
                     break
                 continue
@@ -884,12 +927,12 @@ def gen_cases_for_family(rng, fam, ncases):
     return cases
 
 
-def _gen_case(rng, fam, base=None):
+def _gen_case(rng, fam, base=None, kind=None):
     names = [k["name"] for k in fam["classes"]]
     if True:
         base = base or rng.choice(names)
-        kind = rng.choice(["explicit", "explicit", "short", "short", "steps", "steps", "steps", "change", "change",
-                           "change", "object", "default"])
+        kind = kind or rng.choice(["explicit", "explicit", "short", "short", "steps", "steps", "steps", "change", "change",
+                                   "change", "object", "default"])
         dflt = None
         channel = "argv"
         if kind == "explicit":
@@ -929,7 +972,10 @@ def _gen_case(rng, fam, base=None):
                     steps[pos:pos] = steps_for(rng, t3, [k], False) if rng.random() < 0.5 else [
                         {"nested": [k], "raw": tree_raw(rng, t3, 0.5)}]
         else:  # default
-            dflt = tree_value(gen_tree(rng, fam, base, clean=True))
+            dt = gen_tree(rng, fam, base, clean=True)
+            if rng.random() < 0.15:
+                dt = corrupt_tree(rng, dt)      # an invalid default: the parse fails while the defaults are completed
+            dflt = tree_value(dt)
             t2 = gen_tree(rng, fam, base, clean=rng.random() < 0.7)
             r = rng.random()
             if r < 0.3:
@@ -1130,6 +1176,36 @@ def fixed_cases():
     add(f, "_Shared", [{"raw": S("Lowest")}, {"nested": ["l"], "raw": I(7)}])
     add(f, "_Shared", [{"nested": ["a"], "raw": I(7)}])
     out.append(cont_case(f, "Base", "list", [{"list": [S("Deep"), D(("class_path", S("Lowest")))], "via": "opt"}]))
+    # a declared parameter given in init_args AND in dict_kwargs of one spec: the dict_kwargs copy is validated and wins
+    f = {"mod": "jvfix11", "funcs": [], "consts": ["K0"], "subs": [], "exports": [], "classes": [
+        _K("Base", [], [_P("a", ["int"], I(1))]),
+        _K("Sub", ["Base"], [_P("a", ["int"], I(2)), _P("b", ["str"], S("x"))], varkw=True),
+        _K("Plain", ["Base"], [_P("a", ["int"], I(5)), _P("b", ["str"], S("y"))]),
+        _K("Holder", [], [_P("k", ["int"], I(3)), _P("h", ["cls", "Base"])])]}
+    for cls in ("Sub", "Plain"):
+        for dkv in (S("oops"), I(9)):
+            spec = D(("class_path", S("jvfix11." + cls)), ("init_args", D(("a", I(3)), ("b", S("q")))), ("dict_kwargs", D(("a", dkv))))
+            add(f, "Base", [{"raw": spec}])
+            add(f, "Base", [{"raw": spec}], channel="object")
+            add(f, "Holder", [{"raw": D(("class_path", S("Holder")), ("init_args", D(("h", spec))))}])
+        add(f, "Base", [{"raw": D(("class_path", S(cls)), ("init_args", D(("b", S("q")))), ("dict_kwargs", D(("b", I(5)), ("zz", I(1)))))}])
+    # a fault history: a parser whose option default is invalid fails first; then, on a fresh parser, a class change
+    for n, (wd, steps) in enumerate((
+            (("Sub", ("a", S("oops"))), [{"raw": S("Sub")}, {"raw": S("jvfix11f0.Base")}]),
+            (("Sub", ("zz", I(1))), [{"raw": D(("class_path", S("Sub")), ("init_args", D(("b", S("q")))))}, {"raw": S("jvfix11f1.Plain")}]),
+            (("Plain", ("a", S("oops"))), [{"raw": S("Plain")}, {"nested": ["b"], "raw": S("w")}, {"raw": S("Base")}]))):
+        fm = dict(f, mod="jvfix11f%d" % n)
+        c = {"fam": fm, "base": "Base", "dflt": None, "steps": steps, "channel": "argv", "twin": None}
+        c["twin"] = _twin(c)
+        c["warm"] = {"fam": fm, "base": "Base", "steps": [],
+                     "dflt": {"spec": {"cp": "jvfix11f%d.%s" % (n, wd[0]), "ia": [list(wd[1])], "dk": []}}}
+        out.append(c)
+    fm = dict(f, mod="jvfix11f9")
+    c = {"fam": fm, "base": "Holder", "dflt": None, "channel": "argv", "twin": None,
+         "steps": [{"nested": ["h"], "raw": S("Sub")}, {"nested": ["h"], "raw": S("jvfix11f9.Base")}]}
+    c["twin"] = _twin(c)
+    c["warm"] = {"fam": fm, "base": "Base", "steps": [], "dflt": {"spec": {"cp": "jvfix11f9.Sub", "ia": [["a", S("oops")]], "dk": []}}}
+    out.append(c)
     return out
 
 
@@ -1199,9 +1275,14 @@ def search(rng, tier, broken):
         bm, bi, bo = fw.judge_cases(mod, cases[lo:hi], obs[lo:hi], tag="x")
         spec_bad = set(bi) | {i for i, k in bo if FINDING_CLASSES.get(k) not in known}   # listed findings are not news
         if spec_bad or bm:
-            bad = [lo + i for i in (sorted(spec_bad) or sorted(bm))]
-            kind_model = not spec_bad
-            break
+            found = [lo + i for i in (sorted(spec_bad) or sorted(bm))]
+            # a case that carries its own history (warm-up parse in the same process) reproduces alone: prefer it
+            own = [i for i in found if cases[i].get("warm")]
+            if not bad or own:
+                bad = own + [i for i in found if i not in own] if own else found
+                kind_model = not spec_bad
+            if own or spec_bad:
+                break
     if not bad:
         return None
 
@@ -1419,7 +1500,8 @@ def describe(case, obs):
     if case.get("warm"):
         w = case["warm"]
         d["history"] = {"1. module as first loaded": module_source(w["fam"]),
-                        "2. earlier parse in the same process (declared type %s)" % w["base"]: argv_of(w["steps"]),
+                        "2. earlier parse in the same process (declared type %s, option default %s)" % (
+                            w["base"], json.dumps(py_value(w["dflt"])) if w.get("dflt") else None): argv_of(w["steps"]),
                         "2. observed": obs.get("warm"),
                         "3. then defined in the module (plugin loaded)": [k["name"] for k in case["fam"]["classes"]
                                                                           if k["name"] not in {q["name"] for q in w["fam"]["classes"]}],
